@@ -190,7 +190,9 @@ def _sites():
     md21 = {"type": "marking-definition", "spec_version": "2.1", "id": "marking-definition--" + UU, "created": "2020-01-01T00:00:00.000Z",
             "definition_type": "statement", "definition": {"statement": "s"}}
     md20 = {k: v for k, v in md21.items() if k != "spec_version"}
-    bases = [("2.1", mal), ("2.1", f), ("2.0", od20), ("2.1", b21), ("2.1", rel), ("2.0", rel20), ("2.0", rep20), ("2.1", md21), ("2.0", md20)]
+    fpe = {"type": "file", "id": "file--" + UU, "name": "f", "extensions": {"windows-pebinary-ext": {"pe_type": "exe", "optional_header": {"magic_hex": "0a"},
+                                                                                        "file_header_hashes": {"MD5": "0" * 32}}}}
+    bases = [("2.1", mal), ("2.1", f), ("2.0", od20), ("2.1", b21), ("2.1", rel), ("2.0", rel20), ("2.0", rep20), ("2.1", md21), ("2.0", md20), ("2.1", fpe)]
     inj = [
         # (base index, description, path, value, insert-first)
         (0, "top-level custom property", "x_foo", 1), (0, "custom property in embedded object", "external_references.0.x_foo", 1),
@@ -233,6 +235,8 @@ def _sites():
         # custom content inside the definition of a marking definition
         (7, "custom property inside a 2.1 statement marking", "definition.x_foo", 1), (7, "false-y custom property inside a 2.1 statement marking", "definition.x_e", ""),
         (8, "custom property inside a 2.0 statement marking", "definition.x_foo", 1),
+        (9, "custom property in a singly embedded object of an extension", "extensions.windows-pebinary-ext.optional_header.x_foo", 1),
+        (9, "custom hash in an extension", "extensions.windows-pebinary-ext.file_header_hashes.x-foo", "zz"),
     ]
     # custom properties given as null / [] are dropped: no custom content results (DROPPED sites carry no injection)
     return bases, inj
@@ -282,7 +286,8 @@ def flag_iff_strict_refuses(i: int, j: int) -> bool:
 # ---- members named like the constructors' own flags are content, not switches
 RESERVED = ["allow_custom", "interoperability", "custom_properties"]
 RES_SITES = [(0, ""), (0, "external_references.0."), (0, "kill_chain_phases.0."), (1, ""), (1, "extensions.ntfs-ext."), (1, "extensions.ntfs-ext.alternate_data_streams.0."),
-             (7, "definition."), (8, "definition."), (2, "objects.0."), (3, "objects.0."), (4, ""), (5, "")]
+             (7, "definition."), (8, "definition."), (2, "objects.0."), (3, "objects.0."), (4, ""), (5, ""),
+             (9, "extensions.windows-pebinary-ext.optional_header."), (9, "extensions.windows-pebinary-ext.")]
 
 
 def reserved_names(si: int, ni: int, with_custom: bool) -> bool:
